@@ -81,3 +81,10 @@ add("C03", "model_checking",
     "a failed step always yields a non-zero exit and a report 'headline:' + exactly one correctly indented '* ' entry per injected error (nothing dropped, nothing duplicated).",
     "The generator steps themselves are stubbed (their result shape is derived from the real return annotations); messages satisfy write_error_report's preconditions, "
     "hold no whitespace-only lines and no line separators other than U+000A. Whether the front end finds every independent error of a model is outside.")
+
+add("C28", "model_checking",
+    "bounded symbolic execution (CrossHair/z3) of smoke.main.execute with nondeterministic stage stubs (failing stage index and error messages symbolic), path trees exhausted; concrete diff of the recorded cases",
+    "smoke.main.execute runs with each of its stages (parse, imports, symbol table, translation, constraint inference, C# type verification, C# type and verification "
+    "generation) replaced by a stub that fails according to a symbolic index: exit 0 iff no stage failed, exit 1 with a correctly formatted report holding exactly the "
+    "injected errors otherwise, never an exception. Beside it, concretely: the five recorded cases are diffed and the verdict is compared with the real pipeline on the repository's models.",
+    "The stages are stubbed in the symbolic part; the agreement with the real stages is only established on the repository's fixtures (concrete).")
